@@ -173,6 +173,7 @@ func (c *Cache[K, V]) drainRemovals() {
 			if e.reason == RemovedCapacity && c.onEvict != nil {
 				c.onEvict(e.key, e.value)
 			}
+			verifDeliveredInc()
 		}
 	}
 }
